@@ -372,6 +372,44 @@ set_option maxRecDepth 100000 in
 example : (s0.run both).store.items[svr.addr.key]? = some { svr with version := 2 } ∧
     (s0.run both).store.updated[svr.addr.key]? = some 5 := by decide
 
+/-- a writer and a `Filter` call (no criterion: everything) on the empty keyspace -/
+def s1 : Sys :=
+  { store := {}, clock := 0, nextTok := 1,
+    clients := [.writer (Writer.start ⟨.add, svr, keep⟩ 0), .reader ⟨.index {}⟩] }
+
+theorem clients1_cases {i : Nat} {w : Writer} (h : s1.clients[i]? = some (.writer w)) :
+    i = 0 ∧ w = Writer.start ⟨.add, svr, keep⟩ 0 := by
+  match i, h with
+  | 0, h => simp [s1] at h; exact ⟨rfl, h.symm⟩
+  | 1, h => simp [s1] at h
+  | i + 2, h => simp [s1] at h
+
+theorem init_s1 : Init s1 := by
+  refine ⟨?_, ?_, ?_, ?_, ?_, ?_, ?_, rfl⟩
+  · intro i w h; obtain ⟨_, rfl⟩ := clients1_cases h; decide
+  · intro i j wi wj hi hj _
+    obtain ⟨rfl, _⟩ := clients1_cases hi
+    obtain ⟨rfl, _⟩ := clients1_cases hj
+    rfl
+  · intro i w h; obtain ⟨_, rfl⟩ := clients1_cases h; exact ⟨rfl, rfl⟩
+  · intro i w h; obtain ⟨_, rfl⟩ := clients1_cases h; exact AddrPreserving.keyPreserving keep_ap
+  · intro k r h; simp [s1] at h
+  · intro k t h; simp [s1, RStore.lastOf] at h
+  · intro k c h; simp [s1] at h
+
+set_option maxRecDepth 100000 in
+/-- the hypotheses of `C09_listing_committed` are satisfiable: after the writer's commit (5 commands) the reader's
+index pipeline finds the key and the reader stands at its `HMGET` — -/
+example : (s1.run [.step 0, .step 0, .step 0, .step 0, .step 0, .step 1]).clients[1]? =
+    some (.reader ⟨.hmget [svr.addr.key]⟩) := rfl
+
+set_option maxRecDepth 100000 in
+/-- — the listing then returns the committed version-1 record, which is the record saved by the (only) log entry -/
+example :
+    let s := s1.run [.step 0, .step 0, .step 0, .step 0, .step 0, .step 1]
+    s.store.hmgetItems [svr.addr.key] = [{ svr with version := 1 }] ∧
+      s.log.map (·.batch) = [.save { svr with version := 1 } 0] := by decide
+
 end Example
 
 /-! ## the source facts the store model is built on (regenerated `Gen/Facts.lean`, section `storewrites`)
